@@ -680,6 +680,16 @@ def register_json(T, repo):
                 MatchesS().check(ex, st, ms, label + ':matches', line)
                 ex.prove(st, label + ':matches-need-text', Implies(
                     zint(ms.length()) > 0, zint(cm_.ln) >= 1), line)
+                # C14: the messages handed out are ordered by position in
+                # the LaTeX file: the list was sorted (key proved to be the
+                # LaTeX position) and not written afterwards
+                srt = st.ghost.get('$sorted_by_key')
+                later = [w for w in st.writes[srt[1]:] if w[0] == srt[0]] \
+                    if srt is not None else []
+                ex.prove(st, label + ':matches-sorted-by-latex-position', Or(
+                    zint(ms.length()) == 0,
+                    bool(isinstance(ms, TokList) and srt is not None and
+                         srt[0] == ms.lid and len(later) == 0)), line)
         return _R()
 
     c = T.add(FContract(
@@ -734,6 +744,28 @@ def register_json(T, repo):
                 zint(seq_len(E['tex'])))))))
     T.empty_hints[(PR + 'run_proofreader_options', 'charmap_tot')] = 'ilist'
 
+    # C14 / C20: every match collected for a part -- those of the
+    # proofreader AND the shell's own messages -- goes through the loop that
+    # shifts its offset by the text before the part.  The exit refinement of
+    # that loop marks the segments of `matches` (label +ref); a segment
+    # added to `matches` afterwards has not been shifted.
+    import ast as _ast2
+
+    def rpo_stmt_hook(ex, stmt, st, fi):
+        if isinstance(stmt, _ast2.AugAssign) and \
+                isinstance(stmt.op, _ast2.Add) and \
+                isinstance(stmt.target, _ast2.Name) and \
+                stmt.target.id == 'matches_tot' and \
+                isinstance(stmt.value, _ast2.Name):
+            src = st.env.get(stmt.value.id)
+            if isinstance(src, TokList):
+                ok = all(isinstance(sg, Many) and sg.label.endswith('+ref')
+                         for sg in src.segs)
+                ex.prove(st, 'all-matches-of-the-part-went-through-the-'
+                         'offset-shift-loop@%d' % stmt.lineno, bool(ok),
+                         stmt.lineno)
+    T.stmt_hooks[PR + 'run_proofreader_options'] = rpo_stmt_hook
+
     def sort_hook(ex, st, fi, lst, args, kw, line):
         # assumed contract of list.sort(key=f): f is called on every
         # element, the list is permuted
@@ -746,8 +778,18 @@ def register_json(T, repo):
         g = st.clone()
         g.assume(zint(lst.length()) > 0)
         e = tmp.segs[0].mk(g)
-        for _ in bi.dispatch(ex, ast_call(line), g, fi, key, [e], {}):
-            pass
+        for g2, val in bi.dispatch(ex, ast_call(line), g, fi, key, [e], {}):
+            # C14: messages are ordered by position in the LaTeX file --
+            # the key of a match is the LaTeX position its offset maps to
+            cmt = g2.env.get('charmap_tot')
+            if isinstance(e, JVal) and isinstance(cmt, SSeq) and \
+                    (sym.is_int(val) or isinstance(val, JVal)):
+                off = num(e.child('offset')[1])
+                ex.prove(g2, 'sort-key-is-latex-position@%d' % line,
+                         num(val) == sym.iabs(cmt.at(off)), line)
+        # ghost: this list (in its present state) is ordered by its key
+        # (assumed contract of list.sort)
+        st.ghost['$sorted_by_key'] = (lst.lid, len(st.writes))
         yield st, None
     T.sort_hook = sort_hook
 
